@@ -1,6 +1,6 @@
 (* C19 — Incentive payouts never exceed their funding and follow farmed share.
    Property theorems only; each is closed by a lemma proved in Proofs/GaugeProofs.v. *)
-From Comdex Require Import Lib.Base Lib.DecArith Lib.F64 Model.Gauge Proofs.GaugeProofs Proofs.GaugeStableProofs Proofs.GaugeMetaProofs.
+From Comdex Require Import Lib.Base Lib.DecArith Lib.F64 Model.Gauge Proofs.GaugeProofs Proofs.GaugeStableProofs Proofs.GaugeMetaProofs Proofs.GaugeDenomProofs.
 
 (* the per-epoch allocations sum exactly to the deposit, there is one per epoch, and each is the
    floor or the floor + 1 of deposit / epochs.  Guards exactly as coded: deposit < epochs gives
@@ -413,3 +413,47 @@ Example c19_stable_example :
    r_bal (r2_base s) 4 = 7891 /\ owed2 4 s = 7891 /\
    holds_C19_custody2 4 (r_bal (r2_base s) 4) (r_gauges (r2_base s)) (r_exts (r2_base s)) (r2_sx s) = true).
 Proof. vm_compute. repeat split. eexists. repeat split. Qed.
+
+(* ---------------- the swap-fee distribution denom changes between epochs ---------------- *)
+(* custody over EVERY history of ordinary gauges and swap-fee gauges in which the coin handed over by
+   TransferFundsForSwapFeeDistribution may be of ANY denom at every epoch (the liquidity parameter SwapFeeDistrDenom
+   changed): in every denom the custody account covers the remaining deposits of all active gauges.  The remainder a
+   swap-fee gauge still held in the OLD denom is dropped from its books at the change (gauge.go 291-295: the deposit
+   coin is replaced) and stays in the module account: custody only gains by it. *)
+Theorem c19_custody_denom_change : forall ops d, forallb dop_wf ops = true ->
+  let s := drun dinit ops in holds_C19_custody d (d_bal s d) (map dg_g (d_gauges s)) [] = true.
+Proof. exact custody_denom_change. Qed.
+Print Assumptions c19_custody_denom_change.
+
+(* one swap-fee gauge, one epoch, whatever the denoms of its coins and of the coin received: the deposit stays
+   non-negative and in every denom the remainder on the gauge's books moves by at most what custody moves *)
+Theorem c19_swap_denom_trigger : forall calc recv b dg dg' b' ps,
+  g_swap (dg_g dg) = true -> 0 <= g_deposit (dg_g dg) -> BInv b -> recvd_wf recv = true ->
+  trigger_swap_d calc recv b dg = Ok (dg', b', ps) ->
+  (0 <= g_deposit (dg_g dg')) /\ BInv b' /\
+  forall d, (if g_denom (dg_g dg') =? d then g_rem (dg_g dg') else 0) - (if g_denom (dg_g dg) =? d then g_rem (dg_g dg) else 0) <= b' d - b d.
+Proof. exact swap_denom_trigger. Qed.
+Print Assumptions c19_swap_denom_trigger.
+
+(* non-vacuity (the history of seeded/C19-8): a pool's swap-fee gauge takes in and pays fees in denom 1 for two
+   epochs, the parameter is switched to denom 3 while the gauge holds 500001 of denom 1 (500000 are paid, 1 stays
+   behind in custody), then four epochs in denom 3; a second gauge of 10 000 000 of denom 3 that has not started
+   shares the custody account.  At the first payout in the new denom the distributed coin is REPLACED (400000 of
+   denom 3) and the deposit is reduced by it: 400001 - 400000 + 300000. *)
+Example c19_denom_change_example :
+  let fe := [FarmPlain [(1, 600000000000000000); (2, 400000000000000000)]; FarmErr] in
+  let ops := [DCreateSwap 1 0 86400; DCreate 3 10000000 10 3600000 0 86400 10000000 true;
+     DTrigger 86400 86400 fe [Ok (1, 1000001); Err 1]; DTrigger 172800 86400 fe [Ok (1, 500000); Err 1];
+     DTrigger 259200 86400 fe [Ok (3, 400001); Err 1]; DTrigger 345600 86400 fe [Ok (3, 300000); Err 1];
+     DTrigger 432000 86400 fe [Ok (3, 0); Err 1]; DTrigger 518400 86400 fe [Ok (3, 200000); Err 1]] in
+  let proj := fun s : dstate =>
+     (map (fun dg => (g_deposit (dg_g dg), g_distributed (dg_g dg), g_denom (dg_g dg), dg_ddenom dg)) (d_gauges s), d_bal s 1, d_bal s 3) in
+  forallb dop_wf ops = true /\
+  proj (drun dinit (firstn 4 ops)) = ([(500001, 1000000, 1, 1); (10000000, 0, 3, 3)], 500001, 10000000) /\
+  proj (drun dinit (firstn 5 ops)) = ([(400001, 1500000, 3, 1); (10000000, 0, 3, 3)], 1, 10400001) /\
+  proj (drun dinit (firstn 6 ops)) = ([(300001, 400000, 3, 3); (10000000, 0, 3, 3)], 1, 10300001) /\
+  proj (drun dinit ops) = ([(200001, 700000, 3, 3); (10000000, 0, 3, 3)], 1, 10200001) /\
+  (exists s', dstep (drun dinit (firstn 5 ops)) (nth 5 ops (DDonate 0 0)) = Ok (s', [(3, 1, 240000); (3, 2, 160000)])) /\
+  holds_C19_trigger_d (nth 0 (d_gauges (drun dinit (firstn 5 ops))) (mkDG (mkGauge 0 0 0 0 false 0 0 false 0) 0))
+                      (nth 0 (d_gauges (drun dinit (firstn 6 ops))) (mkDG (mkGauge 0 0 0 0 false 0 0 false 0) 0)) 300000 = true.
+Proof. vm_compute. repeat split. eexists. reflexivity. Qed.
